@@ -11,12 +11,12 @@ Definition EMPTYZ : Z := -1.
 
 (* the search loop: for (isub = nsupc; isub < nsupr; ++isub) {...}; indices are relative to nsupc *)
 Fixpoint scan (c : list (Z * Z)) (i : nat) (usepr : bool) (oldrow diagind : Z)
-              (pivmax : Z) (pivptr old_pivptr : nat) (diag : option nat) : Z * nat * nat * option nat :=
+              (pivmax : Z) (pivptr : nat) (old_pivptr : option nat) (diag : option nat) : Z * nat * option nat * option nat :=
   match c with
   | [] => (pivmax, pivptr, old_pivptr, diag)
   | (row, mag) :: r =>
       let '(pivmax', pivptr') := if pivmax <? mag then (mag, i) else (pivmax, pivptr) in
-      let old' := if usepr && (row =? oldrow) then i else old_pivptr in
+      let old' := if usepr && (row =? oldrow) then Some i else old_pivptr in
       let diag' := if row =? diagind then Some i else diag in
       scan r (S i) usepr oldrow diagind pivmax' pivptr' old' diag'
   end.
@@ -28,12 +28,15 @@ Record pivres := mkPR { pr_ptr : nat; pr_row : Z; pr_usepr : bool; pr_singular :
 
 (* usepr: reuse of the old pivot requested; oldrow = inv_perm_r[jcol]; diagind = inv_perm_c[jcol] *)
 Definition pivotL (c : list (Z * Z)) (usepr : bool) (oldrow diagind : Z) (thr : Z) : pivres :=
-  let '(pivmax, pivptr, old_pivptr, diag) := scan c 0 usepr oldrow diagind 0 0%nat 0%nat None in
-  if pivmax =? 0 then mkPR pivptr (row_at c pivptr) false true
+  let '(pivmax, pivptr, old_pivptr, diag) := scan c 0 usepr oldrow diagind 0 0%nat None None in
+  if pivmax =? 0 then mkPR pivptr (if Nat.ltb pivptr (length c) then row_at c pivptr else diagind) false true
   else
     let '(pivptr1, usepr1) :=
       if usepr then
-        (if negb (mag_at c old_pivptr =? 0) && (thr <=? mag_at c old_pivptr) then (old_pivptr, true) else (pivptr, false))
+        match old_pivptr with
+        | Some o => if negb (mag_at c o =? 0) && (thr <=? mag_at c o) then (o, true) else (pivptr, false)
+        | None => (pivptr, false)          (* the requested pivot row is not a candidate *)
+        end
       else (pivptr, false) in
     if usepr1 then mkPR pivptr1 oldrow true false
     else
